@@ -205,7 +205,11 @@ def write_rep(rep, c, d, rng_state):
             ords = [[(c["origin"][a] + c["spacing"][a] * i) / Q for i in range(e[a] + 1)] for a in range(3)]
         else:
             ords = [[x / Q for x in c["ords"][a]] for a in range(3)]
-        V.write_vtr(path, whole, ords, pf, cf, cfg)
+        # ordinate vectors of different number types: x as integers when all x ordinates are whole numbers (np.arange style)
+        types = ["Float64"] * 3
+        if rng_state.get("int_x") and all(float(x).is_integer() for x in ords[0]):
+            types[0] = "Int64"
+        V.write_vtr(path, whole, ords, pf, cf, cfg, coord_type=types)
     elif rep == "vts":
         path = os.path.join(d, "g.vts")
         V.write_vts(path, whole, [[x / Q for x in p] for p in P], pf, cf, cfg)
@@ -780,7 +784,7 @@ def _run(ctx):
         if rng.random() < 0.6:
             rng.shuffle(pperm)
             rng.shuffle(cperm)
-        choices = {"cfg": cfg_of(rng), "pperm": pperm, "cperm": cperm, "mio_binary": rng.random() < 0.7, "swap": rng.random() < 0.5}
+        choices = {"cfg": cfg_of(rng), "pperm": pperm, "cperm": cperm, "mio_binary": rng.random() < 0.7, "swap": rng.random() < 0.5, "int_x": rng.random() < 0.5}
         grids.append((c, choices))
     # ---- model ties on the mesh classes
     gexprs, pexprs, pidx = [], [], []
